@@ -132,7 +132,13 @@ def finish(ctx: Ctx, explanation: str, assumptions: list[str], trusted: list[str
         return EXIT_VIOLATION if unl else EXIT_OK
     unlisted: list[Finding] = []
     listed: list[Finding] = []
+    seen_keys: set = set()
+    uniq = []
     for f in ctx.findings:
+        if f.fkey not in seen_keys:
+            seen_keys.add(f.fkey)
+            uniq.append(f)
+    for f in uniq:
         (listed if f"{f.prop}|{f.fkey}" in known else unlisted).append(f)
 
     for f in listed:
